@@ -259,8 +259,9 @@ def generate(ctx, shard=0, nshards=1):
             for d in (1, 15, last):
                 for (h, mi, s) in ((0, 0, 0), (12, 0, 0), (23, 59, 59)):
                     k += 1
-                    # every override 0..60 on one date-time of each month (rotating), three of them elsewhere
-                    if (d, h) == ((1, 15, last)[(y + m) % 3], (0, 12, 23)[(y // 3 + m) % 3]):
+                    # every override 0..60 on one date-time of each month (rotating; on all nine in the thorough tier),
+                    # three of them elsewhere
+                    if ctx.tier == 'thorough' or (d, h) == ((1, 15, last)[(y + m) % 3], (0, 12, 23)[(y // 3 + m) % 3]):
                         ov = range(0, 61)
                     else:
                         ov = (rng.randint(0, 60), rng.choice([0, 1, 10, 27, 37, 60]), rng.random() * 60.0)
